@@ -1408,7 +1408,11 @@ static void mt_qclear (int cap, int nprod, int nper, uint64_t seed)
           all_done = 0;
       if (all_done)
         break;
-      /* wait until the queue is full (the producers fill it) or everybody has finished */
+      /* give the producers a moment to fill the queue and fall asleep (NOT a verdict and not needed by the oracle: after
+       * a clear the queue is EMPTY, so an unfinished producer either runs and enqueues, or sleeps and must have been
+       * released by the clear - the enqueue counter moves in both cases).  A queue that is merely not full can keep
+       * sleepers waiting (auto-reset event: one release per dequeue), so "full" may never come back: bounded. */
+      end = now_ms () + 30;
       while (!async_queue_is_full (q) && now_ms () < end)
         {
           all_done = 1;
@@ -1579,7 +1583,7 @@ static void mt_console (int nlines, int mode, uint64_t seed)
   if (mode != 2)
     pthread_create (&fth, 0, feeder_thread, &fd_);
   end = now_ms () + MT_LIVE_MS;
-  while (mode == 0 || mode == 3 || (mode == 1 && fd_.written < nlines / 2 + 1))
+  while (mode == 0 || mode == 3 || (mode == 1 && __atomic_load_n (&fd_.written, __ATOMIC_ACQUIRE) < nlines / 2 + 1))
     {
       struct timeval tv = { 0, 20000 };
       int n = async_runtime_wait (rt, ev, 16, &tv);
